@@ -80,8 +80,8 @@ func register(s *res.Service, cfg config) {
 		}
 		none("o")
 	case 5: // both kinds on one deep handler under two handler-less levels
-		none("a")
-		none("a.b")
+		none("h5")
+		none("h5.b")
 		var opts []res.Option
 		if cfg.hasRes {
 			opts = append(opts, get)
@@ -89,7 +89,7 @@ func register(s *res.Service, cfg config) {
 		if cfg.hasAcc {
 			opts = append(opts, acc)
 		}
-		s.Handle("a.b.c", opts...)
+		s.Handle("h5.b.c", opts...)
 	case 6: // the service's root resource (pattern "") carries the handlers
 		var opts []res.Option
 		if cfg.hasRes {
@@ -223,6 +223,58 @@ func observe(cfg config) (rec, error) {
 	return r, nil
 }
 
+// doubleWithoutQueue tells whether every probe of a real-server record that deviates from "covered =>
+// once" is a call/auth request answered twice by a service that runs without a queue group: two of its
+// subscriptions (e.g. call.p.*.* for the owned p.* and call.p.a.> for the owned p.a.>) both match the
+// subject although neither covers the other, and without a queue group the server hands the message to both.
+func doubleWithoutQueue(cfg config, m rec) bool {
+	q := cfg.sn
+	if cfg.setQ {
+		q = cfg.queue
+	}
+	if q != "" {
+		return false
+	}
+	str := func(v interface{}) string {
+		var b strings.Builder
+		switch x := v.(type) {
+		case []string:
+			for _, c := range x {
+				b.WriteString(c)
+			}
+		case []interface{}:
+			for _, c := range x {
+				b.WriteString(fmt.Sprint(c))
+			}
+		}
+		return b.String()
+	}
+	probes, _ := m["probes"].([][]interface{})
+	deviating := 0
+	for _, p := range probes {
+		typ, name := str(p[0]), str(p[1])
+		n, _ := p[2].(int)
+		owned := cfg.rr
+		if typ == "access" {
+			owned = cfg.ra
+		}
+		covered := false
+		for _, o := range owned {
+			if rconn.SubjectMatches(o, name) {
+				covered = true
+			}
+		}
+		if (covered && n == 1) || (!covered && n <= 1) {
+			continue
+		}
+		deviating++
+		if n != 2 || (typ != "call" && typ != "auth") {
+			return false
+		}
+	}
+	return deviating > 0
+}
+
 func classify(cfg config, clause string) string {
 	dup := func(l []string) bool {
 		seen := map[string]bool{}
@@ -349,10 +401,26 @@ func Run(c *core.Ctx) {
 		recs = append(recs, r)
 		kept = append(kept, cfg)
 	}
+	// on a real (embedded) NATS server: deliverability of probe requests, reset after a reconnect
+	nreal := 0
+	for i, cfg := range cfgs {
+		if i%c.Pick(40, 8) != 3 {
+			continue
+		}
+		r, err := observeReal(cfg)
+		if err != nil {
+			c.Inconclusive("real NATS server run for %+v: %v", cfg, err)
+			continue
+		}
+		recs = append(recs, r)
+		kept = append(kept, cfg)
+		nreal++
+	}
+	c.Cover("configurations_on_real_nats_server", nreal)
 	var bad []int
 	core.CheckRecords(c, "TraceSubs", "TraceSubs.cfg", recs, nil, func(i int, r interface{}, inv string) { bad = append(bad, i) })
 	if len(bad) > 0 {
-		clauses := []string{"coverage", "redundant", "valid", "exact", "queue", "reset", "serves"}
+		clauses := []string{"coverage", "redundant", "valid", "exact", "queue", "reset", "serves", "delivered", "reconnect"}
 		var recs2 []interface{}
 		var which []struct {
 			i  int
@@ -360,6 +428,10 @@ func Run(c *core.Ctx) {
 		}
 		for _, i := range bad {
 			for _, cl := range clauses {
+				isReal := recs[i].(rec)["judge"] == "real"
+				if isReal != (cl == "delivered" || cl == "reconnect" || ((cl == "reset" || cl == "serves") && isReal)) {
+					continue
+				}
 				r2 := rec{}
 				for k, v := range recs[i].(rec) {
 					r2[k] = v
@@ -375,7 +447,11 @@ func Run(c *core.Ctx) {
 		core.CheckRecords(c, "TraceSubs", "TraceSubs.cfg", recs2, nil, func(j int, r interface{}, inv string) {
 			w := which[j]
 			m := r.(rec)
-			sig := map[string]string{"engine": "subs", "kind": classify(kept[w.i], w.cl), "cfg": m["dbg"].(string)}
+			kind := classify(kept[w.i], w.cl)
+			if w.cl == "delivered" && kept[w.i].rr != nil && doubleWithoutQueue(kept[w.i], recs[w.i].(rec)) {
+				kind = "delivered:twice-without-queue-group"
+			}
+			sig := map[string]string{"engine": "subs", "kind": kind, "cfg": m["dbg"].(string)}
 			c.Violate(core.Violation{Signature: sig, Text: "clause " + w.cl + " fails for " + m["dbg"].(string), Replay: m})
 		})
 	}
